@@ -40,7 +40,7 @@ def np_dtype(x):
          (np.float32 if x.yastn_dtype == 'float32' else (np.bool_ if x.yastn_dtype == 'bool' else np.float64)))
 
 
-def dense(x, spaces=None, check_selection=True):
+def dense(x, spaces=None, check_selection=True, return_own=False):
     """
     Dense array of x over `spaces` (list of {t: D} per native logical leg; default: x's own legs).
     Reads blocks through x[key] for every key allowed by x's own legs; raises ShadowError if x has sectors
@@ -68,7 +68,7 @@ def dense(x, spaces=None, check_selection=True):
             out[()] = np.asarray(x[()]).reshape(())
         except YastnError:
             pass
-        return out
+        return (out, own) if return_own else out
     sig = x.get_signature(native=True)
     n = tuple(x.n)
     nblocks = 0
@@ -101,7 +101,18 @@ def dense(x, spaces=None, check_selection=True):
     if check_selection and nblocks != len(x.get_blocks_charge()):
         raise ShadowError(f"{len(x.get_blocks_charge())} stored blocks but only {nblocks} reachable through "
                           f"block access with keys allowed by legs {own}, signature {sig}, charge {n}")
-    return out
+    return (out, own) if return_own else out
+
+
+def restrict(D, spaces, own):
+    """sub-array of D (over `spaces`) on the sectors listed in `own`"""
+    if D.ndim == 0:
+        return D
+    idx = []
+    for sp, o in zip(spaces, own):
+        offs, _ = offsets(sp)
+        idx.append(np.array([i for t in sorted(o) for i in range(*offs[t])], dtype=np.int64))
+    return D[np.ix_(*idx)]
 
 
 def allowed_keys(mods, spaces, sig, n):
